@@ -72,7 +72,7 @@ class Case:
         return tuple(self.int(min_side, max_side) for _ in range(r))
 
     def signed_axis(self, a, nd):
-        """Return axis a or its negative form a-nd; one time in four as a NumPy integer (what np.argmax, np.arange or shape arithmetic
+        """Return axis a or its negative form a-nd; one time in four as a NumPy integer or 0-d integer array (what np.argmax, np.arange or shape arithmetic
         hand to user code).  The spelling is a function of the choices made so far, so it needs no draw of its own."""
         a = a - nd if self.bool() else a
         h = 0x9E3779B97F4A7C15
@@ -82,7 +82,7 @@ class Case:
         if h % 4 == 0:
             import numpy as onp
 
-            return (onp.int64, onp.int32, onp.intp)[(h >> 8) % 3](a)
+            return (onp.int64, onp.int32, onp.intp, onp.array)[(h >> 8) % 4](a)  # (a 0-d integer array is an axis for NumPy too)
         return a
 
     def axis(self, nd):
